@@ -502,6 +502,13 @@ impl Board {
         self.hash
     }
 
+    /// Verification hook: the stored combined occupancy set
+    #[cfg(feature = "verif_hooks")]
+    #[inline]
+    pub fn verif_all(&self) -> Bitboard {
+        self.all
+    }
+
     /// Convenience alias for [`moves::Make::make`](crate::moves::Make::make)
     pub fn make_move<M: Make>(&self, m: M) -> Result<Self, M::Err> {
         m.make(self)
